@@ -93,6 +93,21 @@ ReplayEv ==
   /\ l' = l + 1
   /\ UNCHANGED <<props, cfg, fr, whole>>
 
+\* ---- C08: metadata buffers handed to LLFree::new: req / off / len = <<local, trees, lower>> (bytes, offsets
+\* relative to a 64-byte aligned arena).  Construction must succeed exactly for large enough, 64-byte aligned,
+\* pairwise disjoint buffers and fail with the initialization error otherwise.
+Disjoint(o1, l1, o2, l2) == o1 + l1 <= o2 \/ o2 + l2 <= o1
+MetaValid(ev) ==
+  /\ \A i \in 1 .. 3 : ev.len[i] >= ev.req[i] /\ ev.off[i] % 64 = 0
+  /\ \A i \in 1 .. 3 : \A j \in 1 .. 3 : i < j => Disjoint(ev.off[i], ev.len[i], ev.off[j], ev.len[j])
+Meta ==
+  /\ IsEv("meta")
+  /\ Chk("C08", "no-panic", e.res # "panic")
+  /\ Chk("C08", "valid-metadata-accepted", MetaValid(e) => e.res = "ok")
+  /\ Chk("C08", "invalid-metadata-rejected-with-initialization-error", ~MetaValid(e) => e.res = "init")
+  /\ l' = l + 1
+  /\ UNCHANGED <<props, cfg, fr, whole>>
+
 \* ---- C12: the lower allocator alone ------------------------------------
 LObs(p, prevf, f, o) ==
   /\ Chk(p, "frame-status", \A h \in Huges(cfg') : ObsFr(o, prevf, h) = f[h])
@@ -141,7 +156,7 @@ LGet ==
   /\ l' = l + 1
   /\ UNCHANGED props
 
-Next == Hdr \/ Row \/ SortBuf \/ TreeSearch \/ ClsCfg \/ Cls \/ ReplayEv \/ LReset \/ LPut \/ LGet
+Next == Hdr \/ Row \/ SortBuf \/ TreeSearch \/ ClsCfg \/ Cls \/ ReplayEv \/ Meta \/ LReset \/ LPut \/ LGet
 Spec == Init /\ [][Next]_vars
 
 Progress == IF l > TLCGet(1) THEN TLCSet(1, l) ELSE TRUE
